@@ -12,6 +12,7 @@ import (
 	"github.com/boz/kcache/filter"
 
 	"verif/explore"
+	"verif/harness/c03"
 	"verif/harness/hx"
 	"verif/runner"
 	"verif/vs"
@@ -229,7 +230,7 @@ func Property() runner.Property {
 		Rule:  "trees of Subscribe/Clone (depth <= 3) below a real publisher fed by a real root subscription and parent cache; K events (K <= buffer size, so no legitimate overflow) published the way controller.run does; one consumer per leaf reading Cache().Get right after each event; optional late subscriber; all interleavings (S1) for the small trees, deviation-bounded (S2) for the larger ones; oracle at quiescence: every early leaf received exactly the published sequence, the late leaf a contiguous suffix containing everything published after Subscribe returned, Get never older than the event",
 		Assumptions: []string{
 			"buffer size is not exceeded (K <= EventBufsiz): the premise 'backlog below the buffer' holds by construction",
-			"the whole-controller variant (events coming from list deltas and watch events) is covered by C03's subscriber mirror",
+			"whole-controller variant (cache updated before distribution, lists racing with watch events) is deviation-bounded (c05/controller/* scenarios)",
 		},
 		Scenarios: func(tier string) []runner.Sc {
 			t1 := []hx.Spec{sub(), sub()}
@@ -248,6 +249,7 @@ func Property() runner.Property {
 				scenario(cfg{Name: "clone(sub,sub),sub", Tree: t4, K: 4, Mode: "S2", Bound: 2}),
 			}
 			out = append(out, SiblingScenarios("C05", tier)...)
+			out = append(out, c03.C05Controller(tier)...)
 			if tier == "thorough" {
 				out = append(out,
 					scenario(cfg{Name: "sub,sub", Tree: t1, K: 2, Mode: "S1"}),
